@@ -271,10 +271,12 @@ def update_entry_for_path(path, e, hashes=None, expected_dev=None,
         st_size = next(g)
 
         # 5. skip checksums if file has not changed since the last time
-        #    (and st_size makes sense)
+        #    (and st_size makes sense, and the entry already has
+        #    the requested set of hashes)
         st_mtime = next(g)
         if (last_mtime is not None and st_mtime <= last_mtime
-                and st_size != 0 and st_size == e.size):
+                and st_size != 0 and st_size == e.size
+                and frozenset(e.checksums) == frozenset(hashes)):
             return False
 
         # 6. get the checksums and real size
